@@ -583,7 +583,7 @@ Theorem normalize_dense_total du ce u v :
 Proof.
   intros P Hall. unfold normalize_dense. rewrite P. simpl.
   apply bmapM_total. intros i Hi. destruct (Hall i Hi) as [H1 H2]. unfold to_dense, dense_overflow.
-  rewrite H1, H2, !andb_false_r. eauto.
+  rewrite H1, H2. eauto.
 Qed.
 
 Theorem normalize_dense_no_crash du ce u : normalize_dense du ce u <> Crash.
